@@ -138,6 +138,32 @@ pub async fn cmd_idx<const N: usize>(st: &mut St<N>, ctx: &mut Ctx, args: &[&str
             drop(p);
             ctx.emit("idx drop");
         }
+        // damage to the probe's index file (the probe object, if any, should have been dropped before)
+        ["cut", id, n] => {
+            let path = st.dir.join(format!("probe.{}.index", id));
+            let n: u64 = if *n == "last" { std::fs::metadata(&path).map(|m| m.len().saturating_sub(1)).unwrap_or(0) } else { n.parse().unwrap() };
+            match std::fs::metadata(&path) {
+                Ok(m) if n < m.len() => {
+                    let r = std::fs::OpenOptions::new().write(true).open(&path).and_then(|f| f.set_len(n));
+                    ctx.emit(format!("idx cut {}", if r.is_ok() { "ok" } else { "absent" }));
+                }
+                Ok(_) => ctx.emit("idx cut noop"),
+                Err(_) => ctx.emit("idx cut absent"),
+            }
+        }
+        ["poke", id, pos, hex] => {
+            let path = st.dir.join(format!("probe.{}.index", id));
+            let pos: usize = pos.parse().unwrap();
+            let bytes = hex_decode(hex);
+            match std::fs::read(&path) {
+                Ok(mut b) if pos + bytes.len() <= b.len() => {
+                    b[pos..pos + bytes.len()].copy_from_slice(&bytes);
+                    std::fs::write(&path, b).unwrap();
+                    ctx.emit("idx poke ok");
+                }
+                _ => ctx.emit("idx poke absent"),
+            }
+        }
         _ => ctx.emit(format!("HARNESS-ERROR bad idx command {:?}", args)),
     }
 }
